@@ -20,7 +20,9 @@ RULE = ("Hypothesis draws a data set (5-9 volumes, 1-4 q-points, 1-3 atoms, powe
         "configuration built field by field (interpolator x admissible order, T_MIN, DT 0.5-500, NT 1-8, NTV 16-41, volume_ratio, "
         "BM order 3-5, DT_SAMPLE/DELTA_P_SAMPLE present or absent, pressures placed inside the range reported by the qha package, with a "
         "10 % margin or with the lowest / highest one inside the first / last cell of the P(T,V) table; moduli on the (T,V) and (T,P) grids); "
-        "non-trivial = temperature rows below 5 K, or a non-default interpolator, or a shear key beyond 44/55/66; distinct by the drawn spec")
+        "non-trivial = temperature rows below 5 K, or a non-default interpolator, or a shear key beyond 44/55/66; distinct by the drawn spec; "
+        "(extreme) duck calculators whose spectrum holds 1-3 single entries of 1e-45..1e-17 or 1e6..1e30 cm^-1 (what a high-order "
+        "extrapolation returns outside the sampled volumes): non-shear phonon parts finite")
 ASSUMPTIONS = [
     "reachable pressure range taken from the third-party qha package run directly on the same arrays (10 % margin)",
     "positive definiteness decided by own eigvalsh of the Mandel matrix of the observed adiabatic tensor",
@@ -239,12 +241,73 @@ def sub_examples(ctx):
         ctx.case(s, True, classes=["example-" + name, "interp-" + m])
 
 
+def extreme_oracle(ctx, s):
+    """What an extrapolating interpolator can hand to the Bose factors outside the sampled volumes (a quintic spline on
+    the diopside example returns 7e-45 and 6e32 cm^-1): positive, finite, but vanishing or huge frequencies of single
+    modes at single volumes.  The moduli of the non-shear classes must stay finite (duck calculator, no reference)."""
+    from ..duck import DuckCalculator, build_duck_spec
+    from cij.core.phonon_contribution.nonshear import (
+        LongitudinalElasticModulusPhononContribution as Lon, OffDiagonalElasticModulusPhononContribution as Off)
+    full = build_duck_spec(s)
+    rng = np.random.default_rng(s["seed"] ^ 0xE17)
+    nu = full["nu"]
+    ntv, nq, npm = nu.shape
+    kinds = set()
+    for _ in range(int(rng.integers(1, 4))):
+        iq, m = int(rng.integers(0, nq)), int(rng.integers(0, npm))
+        if iq == 0 and m < 3:
+            m = 3 if npm > 3 else m
+            if m < 3:
+                iq = 1 if nq > 1 else iq
+            if iq == 0 and m < 3:
+                continue
+        iv = int(rng.choice([0, ntv - 1, int(rng.integers(0, ntv))]))
+        if rng.random() < 0.6:
+            nu[iv, iq, m] = 10.0 ** rng.uniform(-45, -17)
+            kinds.add("vanishing-frequency")
+        else:
+            nu[iv, iq, m] = 10.0 ** rng.uniform(6, 30)
+            kinds.add("huge-frequency")
+    if not kinds:
+        return kinds
+    duck = DuckCalculator(full)
+    ei, ej = rng.uniform(0.2, 0.5, ntv), rng.uniform(0.2, 0.5, ntv)
+    case = dict(s, extreme=True)
+    with warnings.catch_warnings(), np.errstate(all="ignore"):
+        warnings.simplefilter("ignore")
+        for name, cls, e in (("c_ii", Lon, (ei, ei)), ("c_ij", Off, (ei, ej))):
+            obj = ctx.observe(cls, duck, e, _bucket="C12/extreme/crash", _case=case)
+            iso = np.asarray(ctx.observe(lambda: obj.value_isothermal, _bucket="C12/extreme/crash", _case=case))
+            adi = np.asarray(ctx.observe(lambda: obj.value_adiabatic, _bucket="C12/extreme/crash", _case=case))
+            if np.iscomplexobj(iso) or not np.all(np.isfinite(iso)):
+                bad = np.argwhere(~np.isfinite(iso))[0]
+                raise PropertyViolation("C12/extreme/nonfinite-isothermal", "%s isothermal phonon part not finite at (iT=%d, iv=%d) with %s" % (
+                    name, bad[0], bad[1], "/".join(sorted(kinds))), case)
+            if np.iscomplexobj(adi) or not np.all(np.isfinite(adi)):
+                raise PropertyViolation("C12/extreme/nonfinite-adiabatic", "%s adiabatic phonon part not finite (C_V>0 everywhere) with %s" % (
+                    name, "/".join(sorted(kinds))), case)
+    return kinds
+
+
+def sub_extreme(ctx):
+    from ..duck import duck_specs
+
+    def body(s):
+        kinds = extreme_oracle(ctx, s)
+        ctx.case(dict(s, extreme=True), bool(kinds), classes=["extreme-frequencies"] + sorted(kinds))
+
+    ctx.run_given(body, duck_specs(max_nq=3, max_na=2), max_examples=ctx.n(160, 8000))
+
+
 def subchecks(ctx):
-    return [("sweep", sub_sweep), ("examples", sub_examples)]
+    return [("sweep", sub_sweep), ("examples", sub_examples), ("extreme", sub_extreme)]
 
 
 def replay(ctx, payload):
     s = payload["case"]
+    if s.get("extreme"):
+        extreme_oracle(ctx, {k: v for k, v in s.items() if k != "extreme"})
+        return
     if "example" in s:
         from ..datasets import ExampleDataset
         ds = ExampleDataset(s["example"])
